@@ -35,6 +35,9 @@ pub fn check(tier: Tier) -> Check {
     parts.push(Part::new("C14/streams", json!({"depth": tier.pick(5, 6)}), tier.pick(1, 2), tier.pick(40, 400)));
     // a long backlog (127 .. 1025 unread messages) in a stream that is only read after the drop
     parts.push(Part::new("C14/backlog", json!({}), 0, 60));
+    // value flavour (DESIGN 4): the same exploration with requests / inbound messages of unusual content
+    parts.push(Part::new("C14/drop", json!({"depth": tier.pick(4, 5), "r": 1, "vals": 1}), 1, tier.pick(40, 600)));
+    parts.push(Part::new("C14/streams", json!({"depth": tier.pick(4, 5), "vals": 1}), tier.pick(0, 1), tier.pick(40, 400)));
     Check {
         also_rel: false,
         property: "C14",
